@@ -101,6 +101,10 @@ func genC09(r *world.Rng, w *world.World, big bool) {
 
 func genC10(r *world.Rng, w *world.World, big bool) {
 	n, cl := cnfInstance(r, 10, false)
+	if r.Bool(0.5) { // satisfiable-ish 3-SAT a bit below the threshold, large enough for real search under assumptions
+		n = r.Range(10, 16)
+		cl = randKSAT(r, n, int(float64(n)*(3.2+1.0*r.Float())), 3, 3)
+	}
 	if n < 1 {
 		n = 1
 	}
@@ -124,9 +128,34 @@ func genC10(r *world.Rng, w *world.World, big bool) {
 	}
 	rounds := r.Range(1, 8)
 	var prev []int
+	// models of the base (if any): assumptions drawn from one of them are consistent, so the round
+	// is decided by search rather than by an immediate contradiction
+	var models []uint32
+	if n <= 16 {
+		models = ref.CNF(n, keep).Models()
+		if len(models) > 64 {
+			models = models[:64]
+		}
+	}
 	for i := 0; i < rounds; i++ {
 		var l []int
-		switch r.Intn(6) {
+		kind := r.Intn(6)
+		if len(models) > 0 && r.Bool(0.55) {
+			kind = 6
+		}
+		switch kind {
+		case 6:
+			m := models[r.Intn(len(models))]
+			for _, v := range r.Perm(n)[:r.Range(1, min(n, 4))] {
+				x := v + 1
+				if !ref.LitTrue(x, m) {
+					x = -x
+				}
+				if r.Bool(0.15) {
+					x = -x // one literal against the model: consistent or not, search decides
+				}
+				l = append(l, x)
+			}
 		case 0: // empty
 		case 1: // repeat the previous round
 			l = append(l, prev...)
@@ -274,6 +303,42 @@ func genC08(r *world.Rng, w *world.World, big bool) {
 		default: // only the empty clause, or nothing
 			if r.Bool(0.6) {
 				lines = []string{"0"}
+			}
+		}
+		// lines that repeat a literal or contain a variable in both polarities are legal clause lines too
+		if len(lines) > 0 && r.Bool(0.35) {
+			i := r.Intn(len(lines))
+			c, _ := ref.ParseCertLine(lines[i])
+			if len(c) > 0 {
+				x := c[r.Intn(len(c))]
+				if r.Bool(0.5) {
+					c = append(c, x)
+				} else {
+					c = append(c, -x)
+				}
+				if r.Bool(0.5) {
+					c[0], c[len(c)-1] = c[len(c)-1], c[0]
+				}
+				if r.Bool(0.5) {
+					lines[i] = certLine(c)
+				} else {
+					lines = append(lines[:i:i], append([]string{certLine(c)}, lines[i:]...)...)
+				}
+			}
+		}
+		if r.Bool(0.15) {
+			v := r.Range(1, n)
+			extra := certLine([]int{v, -v})
+			if r.Bool(0.5) {
+				extra = certLine([]int{v, v, lit(r, n)})
+			}
+			i := r.Intn(len(lines) + 1)
+			lines = append(lines[:i:i], append([]string{extra}, lines[i:]...)...)
+			if r.Bool(0.6) {
+				lines = append(lines, certLine(distinctLits(r, n, r.Range(1, min(n, 2)))))
+			}
+			if r.Bool(0.4) {
+				lines = append(lines, "0")
 			}
 		}
 		// comments and blank lines anywhere
